@@ -464,6 +464,18 @@ def evaluate(d, workdir, inf, dms, part, twin=False):
     undeclared = [x for x in stub["dummies"] if x not in stub["decls"]]
     cnt("stub_dummies", len(stub["dummies"]))
 
+    # every dummy argument appears once (the documented rules pass each
+    # entity once; a repeated dummy is not even valid Fortran)
+    low = [x.lower() for x in stub["dummies"]]
+    dups = sorted({x for x in low if low.count(x) > 1})
+    cnt("stub_argument_lists_checked_for_duplicates")
+    if dups:
+        res["violations"].append(
+            {"kind": "stub_dummy_argument_repeated",
+             "what": "the generated stub lists %s more than once in its "
+                     "argument list (%d arguments)" % (dups, len(low)),
+             "dm": None})
+
     # documented intents of the stub
     n_int, bad_int = stub_intents(stub, d)
     cnt("stub_intents_checked", n_int)
